@@ -12,7 +12,23 @@ def parseBools (s : String) : Option (List Bool) := parseList parseBool s
 def parseRats2 := parseList2 parseRat
 def showK (K : List (List (List Rat))) : String := showRats2 K.flatten
 
+/-- ops of a run for `kfl.track`: `0` raw kernel update, `1,s_1,…,s_T` raw scale update, `2` kernel
+constraint, `3` scale constraint (kernels and root factors are not needed: `Tfl.Kfl.runTracked_forget`) -/
+def decodeOp : List Rat → Option Op
+  | [c] => if c = 0 then some (.assignK []) else if c = 2 then some (.consK []) else if c = 3 then some .consS
+           else if c = 1 then some (.assignS []) else none
+  | c :: s => if c = 1 then some (.assignS s) else none
+  | [] => none
+
 def handlers : List (String × Handler) := [
+  ("kfl.track", fun args => match args with
+    | [lo, hi, s0, ops] => do
+      let lo ← parseOptRat lo; let hi ← parseOptRat hi; let s0 ← parseRats s0; let ops ← parseRats2 ops
+      let ops ← ops.mapM decodeOp
+      let (st, tr) := runTracked [] lo hi { K := [], scale := s0 } Track.init ops
+      let ref := match tr.ref with | some r => showRats r | none => "none"
+      pure s!"{ref} {showBool tr.sFresh} {showBool (monoCovered tr st.scale)} {showBool (boundCovered tr)} {showRats st.scale}"
+    | _ => none),
   ("kfl.weights", fun args => match args with
     | [l, x] => do
       let l ← l.toNat?; let x ← parseRat x
